@@ -1,5 +1,6 @@
 import Operon.Lemmas.C10
 import Operon.Gen.GatesConsts
+import Operon.Gen.GatesTranslated
 /-!
 # C10 — prompt-injection gates block every signature hit, stay blocked, and never crash
 
@@ -499,6 +500,99 @@ theorem c10_shipped_membrane_blocks_own_signatures (env : Env) (m' : Membrane) (
       (by simp [Sig.matches, hsub, hc])
     rw [hsame.2] at this
     omega
+
+/-! ## The translated source agrees with the model
+
+`Operon/Gen/GatesTranslated.lean` is regenerated from the Python AST of `membrane.py` / `innate.py` by
+`harness/vf/extract/py2lean_gates.py` on every run (fail closed: a construct outside the supported subset yields
+`untranslatable …`, which no proof below survives).  Each theorem: for every state and argument the translated piece
+of Python computes exactly what the hand-written model computes — so the theorems above are theorems about the
+translated source, not only about a model that testing found to agree with it. -/
+
+/-- the inflammation cut-offs of the current source as the model's parameter -/
+def genCuts : InflCuts :=
+  match Operon.Gen.Gates.inflCuts with
+  | some (a, b, c, d, e, f, g, h) => ⟨a, b, c, d, e, f, g, h⟩
+  | none => ⟨0, 0, 0, 0, 0, 0, 0, 0⟩
+
+/-- `Membrane._check_rate_limit`, translated, is the model's `rateCheck` (the model's window parameter being the
+    source's 60 s) — including the read of the live `rate_limit` attribute, the strict `t > cutoff`, the `>=`
+    against the limit and the append of the admitted call. -/
+theorem c10_translation_agrees_check_rate_limit (m : Membrane) (now : Nat) (hw : m.window = 60 * 1000000) :
+    Tr.checkRateLimit m now = rateCheck m now := by
+  unfold Tr.checkRateLimit rateCheck prune
+  cases m.rateLimit with
+  | none => rfl
+  | some r => simp only [hw, decide_eq_true_eq]
+
+/-- The tail of `Membrane.filter` (from `allowed = …` to `return result`), translated statement by statement in
+    source order — audit append, `_total_blocked`, `_blocked_hashes.add`, then the `on_threat` hook whose exception
+    aborts the rest — is the model's `decide` (the request list and `_total_filtered` having been updated earlier in
+    `filter`). -/
+theorem c10_translation_agrees_filter_tail (m : Membrane) (ts : List Nat) (c : Str) (ms : List Sig) (lvl : Nat) :
+    Tr.filterTail { m with reqTimes := ts, totalFiltered := m.totalFiltered + 1 } c ms lvl = m.decide ts c ms lvl := by
+  unfold Tr.filterTail Membrane.decide Membrane.bookBlock
+  by_cases h : lvl < m.threshold
+  · simp [h]
+  · simp only [h, decide_false, Bool.not_false, if_true, if_false]
+    unfold hookRaise
+    cases m.onThreat with
+    | none => rfl
+    | some f =>
+      simp only []
+      split <;> simp_all
+
+/-- the allow rule of `InnateImmunity.check`, translated, is the condition of the model's `conclude` -/
+theorem c10_translation_agrees_innate_allow (im : Innate) (ms : List Sig) (errs : List Validator) (lvl : Nat) :
+    Tr.innateAllow (maxLevel ms) im.sevThreshold errs.length lvl =
+      decide (maxLevel ms < im.sevThreshold ∧ errs = [] ∧ lvl < lvlAcute) := by
+  unfold Tr.innateAllow lvlAcute
+  cases errs <;> simp [Bool.and_assoc]
+
+/-- the head of `_evaluate_inflammation` (total severity, pattern count, the level chain incl. the cooldown tail),
+    translated, is the model's `levelOf` with the cut-offs regenerated from the source -/
+theorem c10_translation_agrees_inflammation (im : Innate) (hc : im.cuts = genCuts) (now : Nat) (ms : List Sig)
+    (errs : List Validator) :
+    Tr.newLevel (Tr.totalSeverity (sumLevels ms) errs.length) (maxLevel ms) (Tr.patternCount ms.length errs.length)
+      (im.cooling now) = im.levelOf now ms errs := by
+  unfold Innate.levelOf Tr.newLevel Tr.totalSeverity Tr.patternCount newLevel
+  rw [hc]
+  simp only [genCuts, Operon.Gen.Gates.inflCuts, lvlAcute, lvlHigh, lvlMedium, lvlLow, lvlNone, Bool.or_eq_true,
+    decide_eq_true_eq]
+  by_cases h1 : sumLevels ms + errs.length * 2 ≥ 10 ∨ maxLevel ms ≥ 5 <;>
+    by_cases h2 : sumLevels ms + errs.length * 2 ≥ 6 ∨ maxLevel ms ≥ 4 <;>
+    by_cases h3 : sumLevels ms + errs.length * 2 ≥ 3 ∨ ms.length + errs.length ≥ 2 <;>
+    by_cases h4 : ms.length + errs.length ≥ 1 <;> simp only [h1, h2, h3, h4, if_true, if_false]
+
+/-- the three shipped validators' `validate` methods, translated, are the model's `Validator.run` (JSON: including
+    which exception classes of `json.loads` the handler catches) -/
+theorem c10_translation_agrees_validators (env : Env) (c : Str) :
+    (∀ mn mx, Tr.lengthValidate mn mx c = (Validator.length mn mx).run env c) ∧
+    (∀ allowCtl allowNull, Tr.charsetValidate allowCtl allowNull c = (Validator.charset allowCtl allowNull).run env c) ∧
+    (∀ md ms, Tr.jsonValidate env md ms c = (Validator.json md ms).run env c) := by
+  refine ⟨?_, ?_, ?_⟩
+  · intro mn mx
+    unfold Tr.lengthValidate Validator.run
+    by_cases h1 : c.length < mn <;> by_cases h2 : c.length > mx <;> simp [h1, h2]
+  · intro allowCtl allowNull
+    have hany : c.any (fun code => decide (code < 32) && !([9, 10, 13].contains code)) = c.any isBadCtl := by
+      congr 1; funext code
+      simp only [isBadCtl, List.contains_cons, List.contains_nil, Bool.or_false, Bool.not_or, bne]
+      cases decide (code < 32) <;> simp [Bool.and_assoc]
+    unfold Tr.charsetValidate Validator.run
+    rw [hany]
+    cases allowNull <;> cases allowCtl <;> cases c.contains 0 <;> cases c.any isBadCtl <;> rfl
+  · intro md ms
+    unfold Tr.jsonValidate Validator.run
+    by_cases h : c.length > ms
+    · simp [h]
+    · simp only [h, decide_false, Bool.false_eq_true, if_false]
+      cases env.json c with
+      | parsed t => by_cases hd : measure md t 0 > md <;> simp [hd]
+      | decodeError => rfl
+      | valueError => rfl
+      | recursionError => rfl
+      | other => rfl
 
 /-! ## Non-vacuity: concrete states and inputs meeting the hypotheses -/
 
